@@ -114,13 +114,14 @@ theorem honest_timeout (cmds : Nat → Nat × Out) (hfin : ∀ i, (cmds i).2.sta
 
 /-! ## The executor loop as a relation -/
 
-/-- the limit handed to the runner for `tc` at time `now` -/
+/-- the limit handed to the runner for `tc` when the loop reaches it at time `now`: the wait of
+    the test case (`config.wait`) passes first, then the remaining document time is looked at -/
 def limOf (limit : Option Nat) (tc : TC) (now : Nat) : Option Nat :=
-  (effective tc.timeout (limit.map (· - now))).2
+  (effective tc.timeout (limit.map (· - (now + tc.wait)))).2
 
 /-- is that limit the document limit? -/
 def globOf (limit : Option Nat) (tc : TC) (now : Nat) : Bool :=
-  (effective tc.timeout (limit.map (· - now))).1
+  (effective tc.timeout (limit.map (· - (now + tc.wait)))).1
 
 theorem execLoop_cons (limit : Option Nat) (runner : Runner) (tc : TC) (rest : List TC)
     (idx now : Nat) (acc : List Out) (limits : List (Option Nat)) :
@@ -128,14 +129,14 @@ theorem execLoop_cons (limit : Option Nat) (runner : Runner) (tc : TC) (rest : L
       match ((runner idx (limOf limit tc now)).1).status with
       | .code c =>
         if c = skipCodeOf tc then (.skipped idx, limits ++ [limOf limit tc now])
-        else execLoop limit runner rest (idx + 1) (now + (runner idx (limOf limit tc now)).2)
+        else execLoop limit runner rest (idx + 1) (now + tc.wait + (runner idx (limOf limit tc now)).2)
           (acc ++ [(runner idx (limOf limit tc now)).1]) (limits ++ [limOf limit tc now])
       | .timeout =>
         (.timeout (globOf limit tc now) idx (acc ++ [(runner idx (limOf limit tc now)).1]),
           limits ++ [limOf limit tc now])
       | .skipped => (.skipped idx, limits ++ [limOf limit tc now])
       | .detached =>
-        execLoop limit runner rest (idx + 1) (now + (runner idx (limOf limit tc now)).2)
+        execLoop limit runner rest (idx + 1) (now + tc.wait + (runner idx (limOf limit tc now)).2)
           (acc ++ [detachedOut]) (limits ++ [limOf limit tc now])
       | .unknown =>
         (.ok (acc ++ [(runner idx (limOf limit tc now)).1] ++ rest.map unknownOut),
@@ -174,13 +175,13 @@ inductive Run (limit : Option Nat) (runner : Runner) :
   | code (tc : TC) (rest : List TC) (idx now : Nat) (c : Int) (news : List Out)
       (newl : List (Option Nat)) (k : Kind) :
       ((runner idx (limOf limit tc now)).1).status = .code c → c ≠ skipCodeOf tc →
-      Run limit runner rest (idx + 1) (now + (runner idx (limOf limit tc now)).2) news newl k →
+      Run limit runner rest (idx + 1) (now + tc.wait + (runner idx (limOf limit tc now)).2) news newl k →
       Run limit runner (tc :: rest) idx now ((runner idx (limOf limit tc now)).1 :: news)
         (limOf limit tc now :: newl) k
   | detached (tc : TC) (rest : List TC) (idx now : Nat) (news : List Out)
       (newl : List (Option Nat)) (k : Kind) :
       ((runner idx (limOf limit tc now)).1).status = .detached →
-      Run limit runner rest (idx + 1) (now + (runner idx (limOf limit tc now)).2) news newl k →
+      Run limit runner rest (idx + 1) (now + tc.wait + (runner idx (limOf limit tc now)).2) news newl k →
       Run limit runner (tc :: rest) idx now (detachedOut :: news) (limOf limit tc now :: newl) k
 
 theorem execLoop_run (limit : Option Nat) (runner : Runner) (tcs : List TC) :
@@ -200,7 +201,7 @@ theorem execLoop_run (limit : Option Nat) (runner : Runner) (tcs : List TC) :
       · subst hc
         exact ⟨[], [_], _, .skipCode tc rest idx now hs, by simp [build]⟩
       · obtain ⟨news, newl, k, hrun, heq⟩ :=
-          ih (idx + 1) (now + (runner idx (limOf limit tc now)).2)
+          ih (idx + 1) (now + tc.wait + (runner idx (limOf limit tc now)).2)
             (acc ++ [(runner idx (limOf limit tc now)).1]) (limits ++ [limOf limit tc now])
         refine ⟨_, _, k, .code tc rest idx now c news newl k hs hc hrun, ?_⟩
         rw [if_neg hc, heq]
@@ -211,7 +212,7 @@ theorem execLoop_run (limit : Option Nat) (runner : Runner) (tcs : List TC) :
       exact ⟨[], [_], _, .skipped tc rest idx now hs, by simp [build]⟩
     · rename_i hs
       obtain ⟨news, newl, k, hrun, heq⟩ :=
-        ih (idx + 1) (now + (runner idx (limOf limit tc now)).2)
+        ih (idx + 1) (now + tc.wait + (runner idx (limOf limit tc now)).2)
           (acc ++ [detachedOut]) (limits ++ [limOf limit tc now])
       refine ⟨_, _, k, .detached tc rest idx now news newl k hs hrun, ?_⟩
       rw [heq]
@@ -600,14 +601,12 @@ theorem no_spurious_timeout (total : Option Nat) (cmds : Nat → Nat × Out) (tc
     exact ⟨l, hl, hle⟩
 
 theorem first_limit (total : Option Nat) (runner : Runner) (tc : TC) (rest : List TC) :
-    (execAll total runner (tc :: rest)).2[0]? = some (effective tc.timeout (totalLimit total)).2 := by
+    (execAll total runner (tc :: rest)).2[0]? =
+      some (effective tc.timeout ((totalLimit total).map (· - tc.wait))).2 := by
   obtain ⟨news, newl, k, hrun, heq⟩ := execAll_run total runner (tc :: rest)
   rw [heq]
   show newl[0]? = _
-  rw [hrun.first_limit, limOf]
-  have : (totalLimit total).map (· - 0) = totalLimit total := by
-    cases totalLimit total <;> simp
-  rw [this]
+  rw [hrun.first_limit, limOf, Nat.zero_add]
 
 theorem skip_cause (total : Option Nat) (runner : Runner) (tcs : List TC) (i : Nat)
     (h : (execAll total runner tcs).1 = .skipped i) :
@@ -902,5 +901,387 @@ theorem execScript_skipped_cause (tcs : List TC) (script : Status) (outs : List 
   | unknown => simp at h
   | skipped => exact Or.inr (key i h)
   | detached => exact Or.inr (key i h)
+
+end Scrut.Exec
+
+namespace Scrut.Exec
+
+/-! ## `config.wait` counts against the document limit (fix 5800e20)
+
+The wait of a test case passes BEFORE the remaining document time is looked at: the limit handed
+to the runner is `effective perTest (limit − (now + wait))`, and the clock of the next test case
+is `now + wait + elapsed`. -/
+
+/-- one step of the loop, spelled out on the definitions of the model -/
+theorem wait_counts (limit : Option Nat) (runner : Runner) (tc : TC) (rest : List TC)
+    (idx now : Nat) (acc : List Out) (limits : List (Option Nat)) :
+    let eff := effective tc.timeout (limit.map (· - (now + tc.wait)))
+    let r := runner idx eff.2
+    (execLoop limit runner (tc :: rest) idx now acc limits).2[limits.length]? = some eff.2 ∧
+    (∀ c, r.1.status = .code c → c ≠ skipCodeOf tc →
+      execLoop limit runner (tc :: rest) idx now acc limits =
+        execLoop limit runner rest (idx + 1) (now + tc.wait + r.2) (acc ++ [r.1])
+          (limits ++ [eff.2])) ∧
+    (r.1.status = .detached →
+      execLoop limit runner (tc :: rest) idx now acc limits =
+        execLoop limit runner rest (idx + 1) (now + tc.wait + r.2) (acc ++ [detachedOut])
+          (limits ++ [eff.2])) ∧
+    (r.1.status = .timeout →
+      execLoop limit runner (tc :: rest) idx now acc limits =
+        (.timeout eff.1 idx (acc ++ [r.1]), limits ++ [eff.2])) := by
+  intro eff r
+  refine ⟨?_, ?_, ?_, ?_⟩
+  · obtain ⟨news, newl, k, hrun, heq⟩ := execLoop_run limit runner (tc :: rest) idx now acc limits
+    rw [heq]
+    show (limits ++ newl)[limits.length]? = _
+    rw [List.getElem?_append_right (Nat.le_refl _), Nat.sub_self, hrun.first_limit]
+    rfl
+  · intro c hc hne
+    have hc' : ((runner idx (limOf limit tc now)).1).status = .code c := hc
+    rw [execLoop_cons, hc']
+    simp only [hne, if_false]
+    rfl
+  · intro hd
+    have hd' : ((runner idx (limOf limit tc now)).1).status = .detached := hd
+    rw [execLoop_cons, hd']
+    rfl
+  · intro ht
+    have ht' : ((runner idx (limOf limit tc now)).1).status = .timeout := ht
+    rw [execLoop_cons, ht']
+    rfl
+
+/-- waits and durations of the commands of `tcs` (head index `idx`) added up: the time on the
+    document's clock that `tcs` takes when every command runs to its end -/
+def busy (cmds : Nat → Nat × Out) : List TC → Nat → Nat
+  | [], _ => 0
+  | tc :: rest, idx => tc.wait + (cmds idx).1 + busy cmds rest (idx + 1)
+
+/-- an honest runner that does not report a timeout ran the command to its end, strictly inside
+    the limit it was handed -/
+theorem honest_completed (cmds : Nat → Nat × Out) (i : Nat) (lim : Option Nat)
+    (h : ((honest cmds i lim).1).status ≠ .timeout) :
+    (honest cmds i lim).2 = (cmds i).1 ∧ ∀ l, lim = some l → (cmds i).1 < l := by
+  rw [honest_eq] at h ⊢
+  cases lim with
+  | none => simp
+  | some l =>
+    by_cases hl : l ≤ (cmds i).1
+    · simp [hl] at h
+    · simp only [hl, if_false, Option.some.injEq, true_and]
+      intro l' hl'
+      omega
+
+/-- under a document limit `L` the limit handed out is at most what is left of `L` after the wait -/
+theorem limOf_le (L : Nat) (tc : TC) (now : Nat) :
+    ∃ l, limOf (some L) tc now = some l ∧ l ≤ L - (now + tc.wait) := by
+  unfold limOf
+  cases tc.timeout with
+  | none => exact ⟨_, rfl, Nat.le_refl _⟩
+  | some p =>
+    by_cases hp : p ≤ L - (now + tc.wait)
+    · exact ⟨p, by simp [effective, hp], hp⟩
+    · exact ⟨_, by simp [effective, hp], Nat.le_refl _⟩
+
+theorem honest_head_within (cmds : Nat → Nat × Out) (L : Nat) (tc : TC) (idx now : Nat)
+    (h : ((honest cmds idx (limOf (some L) tc now)).1).status ≠ .timeout) :
+    now + tc.wait + (cmds idx).1 < L := by
+  obtain ⟨l, hl, hle⟩ := limOf_le L tc now
+  have := (honest_completed cmds idx _ h).2 l hl
+  omega
+
+section HonestRun
+variable {limit : Option Nat} {cmds : Nat → Nat × Out} {tcs : List TC} {idx now : Nat}
+  {news : List Out} {newl : List (Option Nat)} {k : Kind}
+
+/-- closed form of every limit handed to an honest runner: the commands before it ran to their
+    end, so the clock is the sum of their waits and durations -/
+theorem Run.honest_limits (h : Run limit (honest cmds) tcs idx now news newl k) :
+    ∀ d lim, newl[d]? = some lim → ∃ tc, tcs[d]? = some tc ∧
+      lim = limOf limit tc (now + busy cmds (tcs.take d) idx) := by
+  induction h with
+  | nil => simp
+  | skipCode tc _ _ _ _ =>
+    intro d lim hd
+    cases d with
+    | zero => exact ⟨tc, by simp, by simpa [busy, eq_comm] using hd⟩
+    | succ d => simp at hd
+  | skipped tc _ _ _ _ =>
+    intro d lim hd
+    cases d with
+    | zero => exact ⟨tc, by simp, by simpa [busy, eq_comm] using hd⟩
+    | succ d => simp at hd
+  | timeout tc _ _ _ _ =>
+    intro d lim hd
+    cases d with
+    | zero => exact ⟨tc, by simp, by simpa [busy, eq_comm] using hd⟩
+    | succ d => simp at hd
+  | unknown tc _ _ _ _ =>
+    intro d lim hd
+    cases d with
+    | zero => exact ⟨tc, by simp, by simpa [busy, eq_comm] using hd⟩
+    | succ d => simp at hd
+  | code tc rest idx now c _ _ _ hs _ _ ih =>
+    intro d lim hd
+    cases d with
+    | zero => exact ⟨tc, by simp, by simpa [busy, eq_comm] using hd⟩
+    | succ d =>
+      obtain ⟨tc', h1, h2⟩ := ih d lim (by simpa using hd)
+      have hcomp := (honest_completed cmds idx (limOf limit tc now) (by rw [hs]; simp)).1
+      refine ⟨tc', by simpa using h1, ?_⟩
+      rw [h2, hcomp]
+      simp only [List.take_succ_cons, busy]
+      congr 1
+      omega
+  | detached tc rest idx now _ _ _ hs _ ih =>
+    intro d lim hd
+    cases d with
+    | zero => exact ⟨tc, by simp, by simpa [busy, eq_comm] using hd⟩
+    | succ d =>
+      obtain ⟨tc', h1, h2⟩ := ih d lim (by simpa using hd)
+      have hcomp := (honest_completed cmds idx (limOf limit tc now) (by rw [hs]; simp)).1
+      refine ⟨tc', by simpa using h1, ?_⟩
+      rw [h2, hcomp]
+      simp only [List.take_succ_cons, busy]
+      congr 1
+      omega
+
+/-- the attribution of a timeout under an honest runner, in the same closed form -/
+theorem Run.honest_timeout_glob (h : Run limit (honest cmds) tcs idx now news newl k)
+    {g : Bool} {i : Nat} (hk : k = .timeout g i) :
+    ∃ d tc, i = idx + d ∧ tcs[d]? = some tc ∧
+      g = globOf limit tc (now + busy cmds (tcs.take d) idx) := by
+  induction h with
+  | nil => cases hk
+  | skipCode => cases hk
+  | skipped => cases hk
+  | unknown => cases hk
+  | timeout tc _ idx now _ =>
+    cases hk
+    exact ⟨0, tc, rfl, by simp, by simp [busy]⟩
+  | code tc rest idx now c _ _ _ hs _ _ ih =>
+    obtain ⟨d, tc', h1, h2, h3⟩ := ih hk
+    have hcomp := (honest_completed cmds idx (limOf limit tc now) (by rw [hs]; simp)).1
+    refine ⟨d + 1, tc', by omega, by simpa using h2, ?_⟩
+    rw [h3, hcomp]
+    simp only [List.take_succ_cons, busy]
+    congr 1
+    omega
+  | detached tc rest idx now _ _ _ hs _ ih =>
+    obtain ⟨d, tc', h1, h2, h3⟩ := ih hk
+    have hcomp := (honest_completed cmds idx (limOf limit tc now) (by rw [hs]; simp)).1
+    refine ⟨d + 1, tc', by omega, by simpa using h2, ?_⟩
+    rw [h3, hcomp]
+    simp only [List.take_succ_cons, busy]
+    congr 1
+    omega
+
+/-- under a document limit `L` and an honest runner, every command that was run to its end (every
+    started command except a last one that timed out) ended before `L` on the document's clock,
+    waits included -/
+theorem Run.honest_within {L : Nat} (h : Run (some L) (honest cmds) tcs idx now news newl k) :
+    ∀ d, d < newl.length → (d + 1 < newl.length ∨ ∀ g i, k ≠ .timeout g i) →
+      now + busy cmds (tcs.take (d + 1)) idx < L := by
+  induction h with
+  | nil => simp
+  | skipCode tc _ idx now hs =>
+    intro d hd _
+    have hd0 : d = 0 := by simpa using hd
+    subst hd0
+    have := honest_head_within cmds L tc idx now (by rw [hs]; simp)
+    simp only [List.take_succ_cons, List.take_zero, busy]
+    omega
+  | skipped tc _ idx now hs =>
+    intro d hd _
+    have hd0 : d = 0 := by simpa using hd
+    subst hd0
+    have := honest_head_within cmds L tc idx now (by rw [hs]; simp)
+    simp only [List.take_succ_cons, List.take_zero, busy]
+    omega
+  | unknown tc _ idx now hs =>
+    intro d hd _
+    have hd0 : d = 0 := by simpa using hd
+    subst hd0
+    have := honest_head_within cmds L tc idx now (by rw [hs]; simp)
+    simp only [List.take_succ_cons, List.take_zero, busy]
+    omega
+  | timeout tc _ idx now hs =>
+    intro d hd hc
+    have hd0 : d = 0 := by simpa using hd
+    subst hd0
+    rcases hc with hc | hc
+    · simp at hc
+    · exact absurd rfl (hc _ _)
+  | code tc rest idx now c _ newl' _ hs _ _ ih =>
+    intro d hd hc
+    have hhead := honest_head_within cmds L tc idx now (by rw [hs]; simp)
+    have hcomp := (honest_completed cmds idx (limOf (some L) tc now) (by rw [hs]; simp)).1
+    cases d with
+    | zero =>
+      simp only [List.take_succ_cons, List.take_zero, busy]
+      omega
+    | succ d =>
+      have := ih d (by simpa using hd) (by
+        rcases hc with hc | hc
+        · left; simpa using hc
+        · right; exact hc)
+      rw [hcomp] at this
+      simp only [List.take_succ_cons, busy]
+      omega
+  | detached tc rest idx now _ newl' _ hs _ ih =>
+    intro d hd hc
+    have hhead := honest_head_within cmds L tc idx now (by rw [hs]; simp)
+    have hcomp := (honest_completed cmds idx (limOf (some L) tc now) (by rw [hs]; simp)).1
+    cases d with
+    | zero =>
+      simp only [List.take_succ_cons, List.take_zero, busy]
+      omega
+    | succ d =>
+      have := ih d (by simpa using hd) (by
+        rcases hc with hc | hc
+        · left; simpa using hc
+        · right; exact hc)
+      rw [hcomp] at this
+      simp only [List.take_succ_cons, busy]
+      omega
+
+end HonestRun
+
+/-- every limit handed to an honest runner is
+    `min(per-test limit, document limit − (waits and durations before + its own wait))` -/
+theorem honest_limits (total : Option Nat) (cmds : Nat → Nat × Out) (tcs : List TC)
+    (d : Nat) (lim : Option Nat) (h : (execAll total (honest cmds) tcs).2[d]? = some lim) :
+    ∃ tc, tcs[d]? = some tc ∧
+      lim = (effective tc.timeout
+        ((totalLimit total).map (· - (busy cmds (tcs.take d) 0 + tc.wait)))).2 := by
+  obtain ⟨news, newl, k, hrun, heq⟩ := execAll_run total (honest cmds) tcs
+  rw [heq] at h
+  obtain ⟨tc, h1, h2⟩ := hrun.honest_limits d lim h
+  refine ⟨tc, h1, ?_⟩
+  rw [h2, limOf, Nat.zero_add]
+
+theorem honest_within_limit (total : Option Nat) (cmds : Nat → Nat × Out) (tcs : List TC)
+    (L : Nat) (hL : totalLimit total = some L) (d : Nat)
+    (hd : d < (execAll total (honest cmds) tcs).2.length)
+    (hc : d + 1 < (execAll total (honest cmds) tcs).2.length ∨
+      ∀ g i outs, (execAll total (honest cmds) tcs).1 ≠ .timeout g i outs) :
+    busy cmds (tcs.take (d + 1)) 0 < L := by
+  obtain ⟨news, newl, k, hrun, heq⟩ := execAll_run total (honest cmds) tcs
+  rw [heq] at hd hc
+  rw [hL] at hrun
+  have := hrun.honest_within d hd (by
+    rcases hc with hc | hc
+    · exact .inl hc
+    · right
+      intro g i hk
+      subst hk
+      exact hc g i news rfl)
+  omega
+
+theorem honest_ok_total (total : Option Nat) (cmds : Nat → Nat × Out) (tcs : List TC)
+    (L : Nat) (hL : totalLimit total = some L) (outs : List Out)
+    (h : (execAll total (honest cmds) tcs).1 = .ok outs)
+    (hu : ∀ o ∈ outs, o.status ≠ .unknown) (hne : tcs ≠ []) :
+    busy cmds tcs 0 < L := by
+  have hlen := (calls_spec total (honest cmds) tcs).2.2 outs h hu
+  have hpos : 0 < tcs.length := List.length_pos_iff.2 hne
+  have := honest_within_limit total cmds tcs L hL (tcs.length - 1) (by omega)
+    (.inr (fun g i o ho => by rw [h] at ho; cases ho))
+  rwa [Nat.sub_add_cancel hpos, List.take_length] at this
+
+theorem honest_timeout_limit (total : Option Nat) (cmds : Nat → Nat × Out) (tcs : List TC)
+    (hfin : ∀ i, (cmds i).2.status ≠ .timeout)
+    (g : Bool) (i : Nat) (outs : List Out)
+    (h : (execAll total (honest cmds) tcs).1 = .timeout g i outs) :
+    ∃ tc l, tcs[i]? = some tc ∧ (execAll total (honest cmds) tcs).2[i]? = some (some l) ∧
+      l ≤ (cmds i).1 ∧
+      (g, some l) = effective tc.timeout
+        ((totalLimit total).map (· - (busy cmds (tcs.take i) 0 + tc.wait))) ∧
+      ∀ L, totalLimit total = some L → l ≤ L - (busy cmds (tcs.take i) 0 + tc.wait) := by
+  obtain ⟨l, hl, hle⟩ := no_spurious_timeout total cmds tcs hfin g i outs h
+  obtain ⟨tc, h1, h2⟩ := honest_limits total cmds tcs i (some l) hl
+  obtain ⟨news, newl, k, hrun, heq⟩ := execAll_run total (honest cmds) tcs
+  rw [heq] at h
+  cases k with
+  | ok => simp [build] at h
+  | skipped j => simp [build] at h
+  | timeout g' i' =>
+    simp only [build, ExecResult.timeout.injEq] at h
+    obtain ⟨rfl, rfl, rfl⟩ := h
+    obtain ⟨d, tc', hi, h3, hg⟩ := hrun.honest_timeout_glob rfl
+    rw [Nat.zero_add] at hi
+    subst hi
+    rw [h1] at h3
+    cases h3
+    refine ⟨tc, l, h1, hl, hle, ?_, ?_⟩
+    · rw [hg, h2, globOf, Nat.zero_add]
+    · intro L hL
+      have := limOf_le L tc (busy cmds (tcs.take i') 0)
+      obtain ⟨l', e, hle'⟩ := this
+      rw [hL] at h2
+      rw [limOf, ← h2] at e
+      cases e
+      exact hle'
+
+/-! ### The loop before fix 5800e20, for comparison only -/
+
+/-- the loop as it was BEFORE the fix: the remaining document time is looked at first, the wait
+    passes afterwards (it moves the clock, but the limit handed to the runner ignores it) -/
+def execLoopOld (limit : Option Nat) (runner : Runner) :
+    (tcs : List TC) → (idx now : Nat) → (acc : List Out) → (limits : List (Option Nat)) →
+    ExecResult × List (Option Nat)
+  | [], _, _, acc, limits => (.ok acc, limits)
+  | tc :: rest, idx, now, acc, limits =>
+    let remaining := limit.map (· - now)
+    let (isGlobal, lim) := effective tc.timeout remaining
+    let now := now + tc.wait
+    let (o, elapsed) := runner idx lim
+    let limits := limits ++ [lim]
+    match o.status with
+    | .code c =>
+      if c = skipCodeOf tc then (.skipped idx, limits)
+      else execLoopOld limit runner rest (idx + 1) (now + elapsed) (acc ++ [o]) limits
+    | .timeout => (.timeout isGlobal idx (acc ++ [o]), limits)
+    | .skipped => (.skipped idx, limits)
+    | .detached =>
+      execLoopOld limit runner rest (idx + 1) (now + elapsed) (acc ++ [detachedOut]) limits
+    | .unknown => (.ok (acc ++ [o] ++ rest.map unknownOut), limits)
+
+/-- the fix changes nothing for a document none of whose test cases waits -/
+theorem execLoopOld_eq_of_no_wait (limit : Option Nat) (runner : Runner) (tcs : List TC)
+    (h : ∀ tc ∈ tcs, tc.wait = 0) :
+    ∀ idx now acc limits,
+      execLoopOld limit runner tcs idx now acc limits = execLoop limit runner tcs idx now acc limits := by
+  induction tcs with
+  | nil => intros; rfl
+  | cons tc rest ih =>
+    intro idx now acc limits
+    have hw : tc.wait = 0 := h tc (List.mem_cons_self ..)
+    have ih' := ih (fun t ht => h t (List.mem_cons_of_mem _ ht))
+    simp only [execLoopOld, execLoop, hw, Nat.add_zero, ih']
+    cases ((runner idx (effective tc.timeout (Option.map (fun x => x - now) limit)).snd).fst).status <;> rfl
+
+/-- the document of the bug report: limit 2 s; a 10 ms command, then a command that waits 1.5 s
+    and runs 1.5 s, then a 10 ms command -/
+def overrunTcs : List TC :=
+  [⟨none, .stdout, none, none, true, 0⟩, ⟨none, .stdout, none, none, true, 1500⟩,
+   ⟨none, .stdout, none, none, true, 0⟩]
+
+def overrunCmds : Nat → Nat × Out := fun i =>
+  if i = 1 then (1500, ⟨.code 0, true, true⟩) else (10, ⟨.code 0, true, true⟩)
+
+theorem wait_overrun_witness :
+    execAll (some 2000) (honest overrunCmds) overrunTcs =
+      (.timeout true 1 [⟨.code 0, true, true⟩, ⟨.timeout, false, false⟩], [some 2000, some 490]) ∧
+    runDocument overrunTcs (execAll (some 2000) (honest overrunCmds) overrunTcs).1 =
+      [(0, .ok), (1, .timeout), (2, .skipped)] := by
+  decide
+
+/-- before the fix the second command was handed 1990 ms (≥ its 1500 ms), passed, and the
+    document ran to 3010 ms on a limit of 2000 ms before the third command was stopped at once -/
+theorem wait_overrun_old :
+    execLoopOld (totalLimit (some 2000)) (honest overrunCmds) overrunTcs 0 0 [] [] =
+      (.timeout true 2 [⟨.code 0, true, true⟩, ⟨.code 0, true, true⟩, ⟨.timeout, false, false⟩],
+        [some 2000, some 1990, some 0]) := by
+  decide
 
 end Scrut.Exec
